@@ -342,7 +342,7 @@ def run(ctx):
             step = draw(st.sampled_from(STEPS))
             start = draw(st.one_of(dec_start, st.sampled_from(["5.95", "4.95", "2.5", "-0.1", "0.1", "0", "-180", "-90", "3.95", "2.45", "0.05", "-0.05", "0.01", "-0.01", "0.001", "-0.3", "0.2",
                                                            # values whose shortest repr is in exponent notation (1e-05)
-                                                           "0.00001", "0.00005", "-0.00002", "0.000001"])))
+                                                           "0.00001", "0.00005", "-0.00002", "0.000001", "0.000025", "0.0000125", "-0.000015", "0.0000375"])))
         if kind == "decimal" and draw(st.integers(0, 5)) == 0:
             step = draw(st.sampled_from(["1/7", "1/3", "1/6", "2/3", "1/12", "1/60"]))      # equally spaced, not a decimal grid
         if kind in ("cleaner", "magbins", "arange"):
@@ -366,7 +366,7 @@ def run(ctx):
 
     @st.composite
     def gen(draw):
-        return {"kind": "generator", "start": draw(st.one_of(dec_start, st.sampled_from(["5.95", "4.95", "2.5", "-180", "-90", "0", "0.00001", "0.00005", "-0.00002"]))),
+        return {"kind": "generator", "start": draw(st.one_of(dec_start, st.sampled_from(["5.95", "4.95", "2.5", "-180", "-90", "0", "0.00001", "0.00005", "-0.00002", "0.000025", "0.0000125", "-0.000015"]))),
                 "step": draw(st.sampled_from(STEPS)), "n": draw(st.one_of(st.integers(2, 12), st.integers(2, ctx.n(400, 4000))))}
 
     def drive_gen(c, case):
